@@ -3596,9 +3596,12 @@ HT_UniversalSinkKeyValueRef
 status_t
 HashtableMid<KeyType,ValueType,HashFunctorType,SubclassType>::PutBefore(HT_SinkKeyParam key, HT_SinkKeyParam placeBeforeMe, HT_SinkValueParam v)
 {
+   // (placeBeforeMe) may refer to a key inside our own array, which PutAux() may have to reallocate:  in that case look it up via a copy
+   const bool isOurKey = this->IsKeyLocatedInThisContainer(placeBeforeMe);
+   KeyType ourKeyCopy; if (isOurKey) ourKeyCopy = placeBeforeMe;
    HashtableEntryBaseType * e = PutAux(this->ComputeHash(key), HT_ForwardKey(key), HT_ForwardValue(v), NULL, NULL);
    if (e == NULL) return B_OUT_OF_MEMORY;
-   HashtableEntryBaseType * f = this->GetEntry(this->ComputeHash(placeBeforeMe), placeBeforeMe);
+   HashtableEntryBaseType * f = isOurKey ? this->GetEntry(this->ComputeHash(ourKeyCopy), ourKeyCopy) : this->GetEntry(this->ComputeHash(placeBeforeMe), placeBeforeMe);
    if ((f)&&(e != f)) this->MoveToBeforeAux(e, f);
    return B_NO_ERROR;
 }
@@ -3608,9 +3611,12 @@ HT_UniversalSinkKeyValueRef
 status_t
 HashtableMid<KeyType,ValueType,HashFunctorType,SubclassType>::PutBehind(HT_SinkKeyParam key, HT_SinkKeyParam placeBehindMe, HT_SinkValueParam v)
 {
+   // (placeBehindMe) may refer to a key inside our own array, which PutAux() may have to reallocate:  in that case look it up via a copy
+   const bool isOurKey = this->IsKeyLocatedInThisContainer(placeBehindMe);
+   KeyType ourKeyCopy; if (isOurKey) ourKeyCopy = placeBehindMe;
    HashtableEntryBaseType * e = PutAux(this->ComputeHash(key), HT_ForwardKey(key), HT_ForwardValue(v), NULL, NULL);
    if (e == NULL) return B_OUT_OF_MEMORY;
-   HashtableEntryBaseType * d = this->GetEntry(this->ComputeHash(placeBehindMe), placeBehindMe);
+   HashtableEntryBaseType * d = isOurKey ? this->GetEntry(this->ComputeHash(ourKeyCopy), ourKeyCopy) : this->GetEntry(this->ComputeHash(placeBehindMe), placeBehindMe);
    if ((d)&&(e != d)) this->MoveToBehindAux(e, d);
    return B_NO_ERROR;
 }
